@@ -31,3 +31,9 @@ theories/AlgR.vos theories/AlgR.vok theories/AlgR.required_vos: theories/AlgR.v 
 theories/InterpAlg.vo theories/InterpAlg.glob theories/InterpAlg.v.beautified theories/InterpAlg.required_vo: theories/InterpAlg.v 
 theories/InterpAlg.vio: theories/InterpAlg.v 
 theories/InterpAlg.vos theories/InterpAlg.vok theories/InterpAlg.required_vos: theories/InterpAlg.v 
+theories/FloorTrick.vo theories/FloorTrick.glob theories/FloorTrick.v.beautified theories/FloorTrick.required_vo: theories/FloorTrick.v 
+theories/FloorTrick.vio: theories/FloorTrick.v 
+theories/FloorTrick.vos theories/FloorTrick.vok theories/FloorTrick.required_vos: theories/FloorTrick.v 
+theories/FloatTricks.vo theories/FloatTricks.glob theories/FloatTricks.v.beautified theories/FloatTricks.required_vo: theories/FloatTricks.v theories/Base.vo theories/Sem.vo theories/FloorTrick.vo
+theories/FloatTricks.vio: theories/FloatTricks.v theories/Base.vio theories/Sem.vio theories/FloorTrick.vio
+theories/FloatTricks.vos theories/FloatTricks.vok theories/FloatTricks.required_vos: theories/FloatTricks.v theories/Base.vos theories/Sem.vos theories/FloorTrick.vos
